@@ -407,6 +407,7 @@ class OnionTor(SimTor):
             names.append('HiddenServiceDirGroupReadable Dependent')
         names += ['HiddenServiceOptions Virtual', 'HiddenServicePort Dependent', 'HiddenServiceVersion Dependent',
                   'HiddenServiceAuthorizeClient Dependent']
+        names += ['%s %s' % (o.name, o.type) for o in self.conf_order]
         return names
 
     def info_onions(self, detached):
@@ -858,6 +859,13 @@ class OnionRun(object):
     # ---------------------------------------------------------------- the simulated Tor
     def build_tor(self):
         tor = OnionTor(self, version=self.tor_version)
+        # what this Tor's own configuration says about single-hop ("non-anonymous") services is Tor's business: the flags
+        # of an ADD_ONION follow the request
+        nonanon = '1' if self.ch.chance(1, 4, 'nonanonmode') else '0'
+        tor.add_option('HiddenServiceNonAnonymousMode', 'Boolean', [nonanon])
+        tor.add_option('HiddenServiceSingleHopMode', 'Boolean', [nonanon])
+        if nonanon == '1':
+            self.sim.probe('tor-configured-for-single-hop-services')
         tor.created_hook = self.on_created
         tor.answered_hook = self.on_answered
         tor.received_hook = self.on_received
@@ -878,6 +886,12 @@ class OnionRun(object):
         if not w.ok:
             raise HarnessError('control protocol did not bootstrap')
         self.tor_obj = Tor(sim.reactor, self.proto)
+        if self.ch.chance(1, 3, 'appwatchesconnection'):
+            # the application wants to hear about the loss of this control connection itself (and, like the library,
+            # does not pass the failure on): one more user of when_disconnected() next to the library's own
+            sim.probe('application-also-asked-when_disconnected')
+            self.app_disconnects = []
+            self.proto.when_disconnected().addBoth(lambda r: self.app_disconnects.append(r) or None)
 
     def boot_config(self):
         w = Watch(self, 'get_config').attach(self.tor_obj.get_config())
